@@ -120,3 +120,20 @@ Definition append_by (f : nat -> option nat) (ty : Z) (s : net) : net :=
                           | Some y => add_reaction acc (mk_simple 0 [x] [y] ty)
                           | None => acc
                           end) sp s.
+
+(** the whole `naunet extend` pipeline on a reaction list: read, reduce-by-species (a NEW network of the reactions whose
+    species are all listed), remove-species, remove-duplicate, the append steps in order, re-index *)
+Definition reduce_by (al : list nat) (s : net) : net :=
+  fold_left add_reaction
+            (filter (fun r => forallb (fun x => memb Nat.eqb x al) (rx_reac r ++ rx_prod r)) (rl s))
+            (empty_net [] []).
+Definition remove_species (xs : list nat) (s : net) : net :=
+  rebuild s (remove_idxs (flat_map (where_species s) xs) (rl s)).
+Definition extend (reduce : option (list nat)) (remove : list nat) (dups : bool)
+                  (appends : list ((nat -> option nat) * Z)) (l : list rx) : net :=
+  let s0 := fold_left add_reaction l (empty_net [] []) in
+  let s1 := match reduce with Some al => reduce_by al s0 | None => s0 end in
+  let s2 := match remove with [] => s1 | _ => remove_species remove s1 end in
+  let s3 := if dups then step s2 RemoveDups else s2 in
+  let s4 := fold_left (fun s p => append_by (fst p) (snd p) s) appends s3 in
+  step s4 Reindex.
